@@ -2,6 +2,7 @@
 // `simrun` drives the same scenarios through a monitored solver and reports which pipeline stages were reached
 // (C10 evidence; under the asan flavour any sanitizer report in the forked child is a C10 violation).
 #include "vh.hpp"
+#include <omp.h>
 #include "tissue.hpp"
 #include "remesh_util.hpp"
 #include "verif_hooks.hpp"
@@ -88,6 +89,8 @@ static std::string run_one(const Args& a, long i) {
             simulation_initializer init(s.P, tp, false); cells = init.get_cell_lst();
         } else cells = tis::build_cells(s);
         cells0 = (long)cells.size();
+        // --omp_default=k: the OpenMP default in force while the solver is constructed (its members are built before it sets its own thread count)
+        if (a.geti("omp_default", 0) > 0) omp_set_num_threads((int)a.geti("omp_default", 0));
         tis::msolver sv(s.P, cells, a.threads, g.coin(0.5), false);
         while (!sv.finished()) { sv.run_iteration(); iters++; }
         cells1 = (long)sv.cells().size();
